@@ -89,6 +89,8 @@ func checkC06(c *Ctx) (int, error) {
 				set.Hdr = headerPattern(rng, bits, bits%2 == 1)
 			} else if bits%3 == 0 {
 				set.Dict = &DataSpec{Class: "text", Seed: int64(bits), Len: 100 + bits*40}
+			} else if bits%3 == 1 && bits%2 == 0 {
+				set.Dict = &DataSpec{Class: "text", Seed: 1, Len: 0} // an empty, non-nil dictionary: FDICT with DICTID 1
 			}
 			cs := &WCase{ID: fmt.Sprintf("C06w-%d", id), Set: set, Tag: fmt.Sprintf("%s|hdr%05b", settingTag(set), bits)}
 			id++
@@ -146,6 +148,48 @@ func checkC06(c *Ctx) (int, error) {
 				c.ev.nontrivial(fmt.Sprintf("r|%s|%d|%d", kind, bits, k))
 			}
 		}
+	}
+	// zlib preset dictionaries: what the stream was written with x what the reader is given
+	// (none, empty, the same, another one): Adler-32 of nothing is 1, so "none" and "empty" agree
+	some, other := &DataSpec{Class: "text", Seed: 77, Len: 300}, &DataSpec{Class: "text", Seed: 78, Len: 300}
+	empty := &DataSpec{Class: "text", Seed: 1, Len: 0}
+	for wi, wd := range []*DataSpec{nil, empty, some} {
+		for ri, rd := range []*DataSpec{nil, empty, some, other} {
+			for ii, impl := range []string{"std", "fastgo"} {
+				e := EncSpec{Impl: impl, Kind: "zlib", Level: []int{6, 1, -2, 2}[(wi+ri+ii)%4], Window: 32768, Data: randData(rng, pick(rng, []int{0, 40, 3000})), Dict: wd}
+				if impl == "fastgo" && e.Level == 6 {
+					e.Level = 1
+				}
+				b, err := encode(e)
+				if err != nil {
+					return 0, err
+				}
+				for _, arch := range c.Levels {
+					cs := &RCase{ID: fmt.Sprintf("C06r-dict-%d-%d-%s@A%d", wi, ri, impl, arch), Kind: "zlib", Arch: arch, Tag: fmt.Sprintf("zlib|dict w%d r%d|%s", wi, ri, impl),
+						Segs: []RSeg{{Stream: RStream{Hex: hexOf(b)}, Src: srcWith(RSource{Kind: "bufio", BufSize: 4096}, nil), Reads: []int{4096}, Multi: true, Dict: rd}}}
+					if ri%2 == 1 {
+						// the same through Reset of a Reader that has read another stream
+						first := RSeg{Stream: RStream{Enc: []EncSpec{{Impl: "std", Kind: "zlib", Level: 6, Window: 32768, Data: randData(rng, 200)}}}, Src: srcWith(RSource{Kind: "bytesReader"}, nil), Reads: []int{4096}, Multi: true}
+						cs.Segs = []RSeg{first, cs.Segs[0]}
+					}
+					rcases = append(rcases, cs)
+				}
+				c.ev.nontrivial(fmt.Sprintf("r|dict|%d|%d|%s", wi, ri, impl))
+			}
+		}
+	}
+	// a member whose length does not fit ISIZE (the trailer holds it modulo 2^32), followed by another member
+	huge := []HugeSpec{{UnitMiB: 64, Reps: 64, TailMiB: 1, Second: true}}
+	if c.Tier == "thorough" {
+		huge = append(huge, HugeSpec{UnitMiB: 64, Reps: 64, TailMiB: 0, Second: true}, HugeSpec{UnitMiB: 64, Reps: 63, TailMiB: 63, Second: true},
+			HugeSpec{UnitMiB: 64, Reps: 128, TailMiB: 5, Second: false})
+	}
+	for hi := range huge {
+		for _, arch := range c.Levels {
+			rcases = append(rcases, &RCase{ID: fmt.Sprintf("C06r-huge%d@A%d", hi, arch), Kind: "gzip", Arch: arch, Huge: &huge[hi],
+				Tag: fmt.Sprintf("gzip|member of %d MiB", huge[hi].totalMiB())})
+		}
+		c.ev.nontrivial(fmt.Sprintf("r|huge|%d", hi))
 	}
 	return c.readerRun("c06r", rcases, true)
 }
@@ -328,6 +372,11 @@ func checkC08(c *Ctx) (int, error) {
 	c.ev.Exhaustive = true
 	for _, cs := range spread(cases) {
 		c.ev.sample(json.RawMessage(cs.Tag))
+	}
+	// a first member longer than 4 GiB (its ISIZE is the length modulo 2^32), then another member
+	hs := &HugeSpec{UnitMiB: 64, Reps: 64, TailMiB: 2, Second: true}
+	for _, arch := range c.Levels {
+		cases = append(cases, &RCase{ID: fmt.Sprintf("C08-huge@A%d", arch), Kind: "gzip", Arch: arch, Huge: hs, Tag: `"a member of more than 4 GiB, then a second member"`})
 	}
 	return c.readerRun("c08", cases, true)
 }
